@@ -291,6 +291,34 @@ pub fn run(ctx: &Ctx, rep: &mut Report) {
         }
         check_seq(&seq, &format!("trees:{}", i), rep, false);
     });
+    // long flat chains: 60-650 symbols of sentences joined by a random mix of implicit AND, -a/-and, -o/-or
+    // and ',' (inputs stay below the 4 KiB bound): folds over long repeat lists, any per-level capacity
+    let n_long = ctx.pick(60, 20_000);
+    par_cases(ctx, "long", n_long, rep, |i, rep| {
+        let mut r = Rng::for_case(ctx.seed, "long", i);
+        let target = 60 + r.usize(590);
+        let mut seq = gen_sentence(&mut r, 3);
+        while seq.len() < target {
+            match r.below(8) {
+                0 | 1 | 2 => {}              // implicit AND
+                3 => seq.push(4),            // -a
+                4 => seq.push(5),            // -and
+                5 => seq.push(6),            // -o
+                6 => seq.push(7),            // -or
+                _ => seq.push(3),            // ,
+            }
+            let d = 1 + r.usize(3);
+            let more = gen_sentence(&mut r, d);
+            seq.extend(more);
+        }
+        if r.chance(1, 4) {
+            // one symbol of damage somewhere far from the start
+            let p = seq.len() / 2 + r.usize(seq.len() / 2);
+            seq[p] = r.usize(11);
+        }
+        rep.count("long_chains");
+        check_seq(&seq, &format!("long:{}", i), rep, false);
+    });
     let extra = rep.get("nontrivial_by_construction");
     rep.extra.push(("distinct_nontrivial_enumerated".into(), J::Int(extra as i128)));
     if ctx.only.is_none() {
